@@ -208,31 +208,33 @@ struct Value {
 
     Value &operator=(Value &&val) noexcept {
         if (this != &val) {
-            const ValueType type = val.Type();
+            // val can be an element of this value (v = Move(v[0])): take it out before anything is released.
+            Value           tmp{Memory::Move(val)};
+            const ValueType type = tmp.Type();
 
-            val.setTypeToUndefined();
+            tmp.setTypeToUndefined();
 
             reset();
             setType(type);
 
             switch (type) {
                 case ValueType::Object: {
-                    object_ = Memory::Move(val.object_);
+                    object_ = Memory::Move(tmp.object_);
                     break;
                 }
 
                 case ValueType::Array: {
-                    array_ = Memory::Move(val.array_);
+                    array_ = Memory::Move(tmp.array_);
                     break;
                 }
 
                 case ValueType::String: {
-                    string_ = Memory::Move(val.string_);
+                    string_ = Memory::Move(tmp.string_);
                     break;
                 }
 
                 default: {
-                    number_ = val.number_;
+                    number_ = tmp.number_;
                 }
             }
         }
@@ -242,8 +244,9 @@ struct Value {
 
     Value &operator=(const Value &val) {
         if (this != &val) {
-            reset();
-            copyValue(val);
+            // val can be an element of this value (v = v["key"]): copy it before anything is released.
+            Value tmp{val};
+            *this = Memory::Move(tmp);
         }
 
         return *this;
@@ -416,26 +419,30 @@ struct Value {
         if (isObject() && val.isObject()) {
             object_ += Memory::Move(val.object_);
             val.setTypeToUndefined();
-        } else {
-            if (!isArray()) {
-                reset();
-                setTypeToArray();
-            }
-
+        } else if (isArray()) {
             array_ += Memory::Move(val);
+        } else {
+            // val can be a member of this value: take it out before the old content is released.
+            Value tmp{Memory::Move(val)};
+
+            reset();
+            setTypeToArray();
+            array_ += Memory::Move(tmp);
         }
     }
 
     inline void operator+=(const Value &val) {
         if (isObject() && val.isObject()) {
             object_ += val.object_;
-        } else {
-            if (!isArray()) {
-                reset();
-                setTypeToArray();
-            }
-
+        } else if (isArray()) {
             array_ += val;
+        } else {
+            // val can be a member of this value: copy it before the old content is released.
+            Value tmp{val};
+
+            reset();
+            setTypeToArray();
+            array_ += Memory::Move(tmp);
         }
     }
 
@@ -631,12 +638,16 @@ struct Value {
     }
 
     inline void Insert(const StringViewT &key, Value &&val) {
-        if (!isObject()) {
+        if (isObject()) {
+            object_.Insert(key.First(), key.Length(), Memory::Move(val));
+        } else {
+            // val can be an element of this value: take it out before the old content is released.
+            Value tmp{Memory::Move(val)};
+
             reset();
             setTypeToObject();
+            object_.Insert(key.First(), key.Length(), Memory::Move(tmp));
         }
-
-        object_.Insert(key.First(), key.Length(), Memory::Move(val));
     }
 
     inline bool operator<(const Value &val) const noexcept {
